@@ -260,7 +260,7 @@ def main():
             gen_tier = 'thorough' if (proofs.get('ties_lost') or any('translated from the Rust source' in p for p in proofs['problems'])) else tier
             cases, meta = fam['gen'](gen_tier, rng)
             if gen_tier != tier:
-                cap = 200000
+                cap = 120000
                 if len(cases) > cap:
                     # keep the widened search within minutes: a uniform sample of the larger family (dependent cases, e.g. `sat` after `minv`, are generated pairwise and tolerate a missing partner)
                     keep = set(rng.sample(range(len(cases)), cap)); cases = [c for i, c in enumerate(cases) if i in keep]
